@@ -461,6 +461,10 @@ def py_reversed(ctx, it):
 
 def py_sorted(ctx, it, **kw):
     xs = iterate(ctx, it)
+    from .small import SmallSet
+    if isinstance(it, SmallSet) and not kw:
+        ctx.note('sorted() of a small symbolic set: arbitrary order (only order-insensitive uses are sound)')
+        return list(xs)
     if has_sym(xs) or kw:
         raise Unsupported('sorted over symbolic items')
     try:
@@ -582,10 +586,25 @@ def py_type(ctx, x, *rest):
 
 
 def py_set(ctx, it=()):
+    from .small import SmallSet
+    if isinstance(it, SmallSet):
+        return SmallSet(it.elems, False)
     xs = iterate(ctx, it)
     if has_sym(xs):
-        raise Unsupported('set of symbolic items')
+        from .small import SmallSet
+        return SmallSet.build(ctx, xs)
     return set(xs)
+
+
+def py_frozenset(ctx, it=()):
+    from .small import SmallSet
+    if isinstance(it, SmallSet):
+        return SmallSet(it.elems, True)
+    xs = iterate(ctx, it)
+    if has_sym(xs):
+        from .small import SmallSet
+        return SmallSet.build(ctx, xs, frozen=True)
+    return frozenset(xs)
 
 
 def py_dict(ctx, *a, **k):
@@ -613,7 +632,7 @@ BUILTINS = {
     'all': py_all, 'any': py_any, 'tuple': py_tuple, 'list': py_list, 'range': py_range, 'enumerate': py_enumerate,
     'zip': py_zip, 'reversed': py_reversed, 'sorted': py_sorted, 'int': py_int, 'float': py_float, 'bool': py_bool,
     'divmod': py_divmod, 'getattr': py_getattr, 'hasattr': py_hasattr, 'print': py_noop, 'str': py_str, 'repr': py_str,
-    'set': py_set, 'frozenset': py_set, 'dict': py_dict, 'callable': py_callable, 'next': py_next, 'type': py_type, 'slice': py_slice, 'iter': py_iter,
+    'set': py_set, 'frozenset': py_frozenset, 'dict': py_dict, 'callable': py_callable, 'next': py_next, 'type': py_type, 'slice': py_slice, 'iter': py_iter,
 }
 # type objects usable as isinstance targets map to themselves
 TYPE_OF_BUILTIN = {'int': int, 'float': float, 'bool': bool, 'tuple': tuple, 'list': list, 'str': str, 'dict': dict,
